@@ -286,6 +286,10 @@ class ParseMCNPCell:
                 raise ParseMCNPCellError(msg) from None
             del kw_list[-consumed:]  # remove the last `consumed` elements
             fillid_bounds = bounds
+            if kw_list and kw_list[-1][0] in '0123456789.+-':
+                msg = (f'expected {bounds.size()} universe specifications '
+                       f'after FILL keyword, found more: {kw_list[-1]}')
+                raise ParseMCNPCellError(msg)
         else:
             fillid_u = int(float(first_arg))
         while kw_list and kw_list[-1][0] in '0123456789.+-':
